@@ -71,28 +71,35 @@ def persistent(d0: int, d1: int, d2: int, order: int) -> bool:
             return env.sock('up:' + addr[0])
         env.upstream_factory = factory
     ex = xk.ex
-    answered = {}        # upstream socket name -> number of requests answered
+    seen = {}            # upstream socket name -> [cursor into its received bytes, complete requests parsed so far, answered count]
     si = 0
+
+    def poll(us):
+        st = seen.setdefault(us.name, [0, [], 0])
+        if len(us.out) > st[0]:
+            got, rest = _split_requests(us.out[st[0]:])     # only the bytes that arrived since the last complete request
+            if got:
+                st[1].extend(got)
+                st[0] = len(us.out) - len(rest)
+        return st
     for step in range(4 * n + 6):
         # the client sends its next segment either right away or only after the pending answers arrived (order bit)
         ups = [s for a, s in env.connects if not isinstance(s, BaseException)]
         pending_answer = False
         for us in ups:
-            got, rest = _split_requests(us.out)
-            k = answered.get(us.name, 0)
-            if len(got) > k:
+            st = poll(us)
+            if len(st[1]) > st[2]:
                 pending_answer = True
         if si < len(segs) and (order == 0 or not pending_answer):
             cs.inq.append(segs[si])
             si += 1
         for us in ups:
-            got, rest = _split_requests(us.out)
-            k = answered.get(us.name, 0)
-            while k < len(got) and not us.closed:
-                tag = us.name[3:].encode() + b'#' + got[k]['start'][1]
-                us.inq.append(scen.response(tag, b'A:' + got[k]['start'][1]))
-                k += 1
-            answered[us.name] = k
+            st = seen[us.name]
+            while st[2] < len(st[1]) and not us.closed:
+                m = st[1][st[2]]
+                tag = us.name[3:].encode() + b'#' + m['start'][1]
+                us.inq.append(scen.response(tag, b'A:' + m['start'][1]))
+                st[2] += 1
         e = xk.step()
         if e is not None:
             return fail('exception escaped the executor loop', exc=repr(e), step=step)
